@@ -1036,7 +1036,7 @@ class VectorSerializer(Generic[T, T_NP], TypeSerializer[list[T], np.object_]):
             self._element_serializer.write(stream, element)
 
     def write_numpy(self, stream: CodedOutputStream, value: np.object_) -> None:
-        if not isinstance(value, list):
+        if not isinstance(value, (list, np.ndarray)):
             raise ValueError(f"Expected a list, got {type(value)}")
 
         stream.write_unsigned_varint(len(value))
